@@ -59,6 +59,28 @@ CHECKS = {
              "in known_findings.json with their recorded extent in findings_extent/C05.json.",
         technique="TLA+ recogniser spec model-checked by TLC; TLC-exported automaton replayed exhaustively into the decoder",
         engine="JsonText", design="8/C05"),
+    "C11": dict(
+        level="model_checking",
+        text="CallHistory.tla models pooled scratch contexts whose fields carry the id of the call that last wrote them (take / reset / "
+             "use / release, panicking calls leak their context); TLC checks NoStaleRead and ResultsStable on all histories of abstract "
+             "kinds and finds the stale read when a field is dropped from the reset set. Instantiated with the harness's 64 concrete call "
+             "kinds (every entry point x option set, 17 failing kinds, persistent Encoder / Decoder / Path / FieldQuery handles) it "
+             "enumerates all histories of length <= 2 and simulates long ones (60 / 300 calls); each history runs in one process (GC "
+             "off, GOMAXPROCS=1, so the pool hands back the context just released) and every call's result is compared with the same "
+             "call made first in a fresh process.",
+        note="trusted: TLC; the cold table (one fresh process per call kind); deterministic sync.Pool reuse with GC off in the production build.",
+        technique="TLA+ pooled-context model (with named deviations) model-checked by TLC; TLC-enumerated and simulated call histories replayed against a cold-process oracle",
+        engine="CallHistory", design="8/C11"),
+    "C12": dict(
+        level="model_checking",
+        text="The same TLC-generated call histories as C11, replayed with ownership checks: every slice returned by a Marshal function "
+             "and every decoded value (strings, []byte, RawMessage, json.Number, interface{} contents, struct fields) is snapshotted; "
+             "after each decode the caller's input is overwritten, every second returned slice is scribbled over, and after every later "
+             "call all earlier snapshots are re-checked (and results still compared with the cold table). CallHistory.tla's "
+             "ResultsStable invariant and its ReturnPooled deviation are the design-level counterpart checked by TLC.",
+        note="trusted: TLC; snapshots are encoding/json renderings of the decoded values.",
+        technique="TLA+ ownership invariant (ReturnPooled deviation) checked by TLC; TLC-generated histories replayed with snapshot / overwrite / re-check of every result",
+        engine="CallHistory", design="8/C12"),
     "C13": dict(
         level="model_checking",
         text="Relations R1 (MarshalIndent = Indent o Marshal for 5 prefix/indent pairs), R2 (Colorize with empty/default/custom scheme "
@@ -218,6 +240,8 @@ NA = {}
 HOOK_COMMITS = ["cb16685"]
 FIX_COMMITS = ["3ba2124", "35e540e", "5d9c0a9", "182cdbb", "c177d40", "4cc9b5c", "e04537c", "f4cd737", "4b54f48", "54b79dc"]
 ENGINES = [
+    dict(name="CallHistory", path="specs/CallHistory.tla", serves_properties=["C11", "C12"],
+         kind_free_text="TLA+ model of pooled contexts with per-field last-writer tags and result ownership; exhaustive and simulated history generation"),
     dict(name="FieldQuery", path="specs/FieldQuery.tla", serves_properties=["C19"],
          kind_free_text="TLA+ field-query projection reference and per-type filtered-program cache state machine; query/expectation export"),
     dict(name="PathEval", path="specs/PathEval.tla", serves_properties=["C20"],
